@@ -58,6 +58,8 @@ ENCODE_FIELDS = {('meta', 'idx'), ('meta', 'size'), ('meta', 'frag_backend_metad
                  ('meta', 'chksum_type'), ('meta', 'chksum'), ('meta', 'chksum_mismatch'), ('meta', 'backend_id'),
                  ('meta', 'backend_version'), ('magic',), ('libec_version',), ('metadata_chksum',)}
 
+INT_RE7 = re.compile(r'^-?\d+$')
+
 def run(ctx):
     # ---- W07
     r = ctx.rule('W07', 'header layout witness (_Static_assert, repo flags)',
@@ -126,6 +128,41 @@ def run(ctx):
         f = P.fn(fname)
         C = Canon(P, f)
         sites = [i for i in f.insts() if i.op == 'call' and i.callee in ('@crc32', '@liberasurecode_crc32_alt')]
+        if len(sites) < 2:
+            # the two flavours may be called through a function-pointer local that selects one of two small wrappers
+            # (`crc_fn = legacy ? meta_crc_legacy : meta_crc_zlib; crc_fn(&hdr->meta, sizeof(hdr->meta))`): look through them
+            class _Site:
+                def __init__(self, callee, ops, ins):
+                    self.callee, self.ops, self.loc, self.line = callee, ops, ins.loc, ins.line
+            for ic in [i for i in f.insts() if i.op == 'call' and (i.callee or '').startswith('%')]:
+                targets, st_, seen_ = set(), [ic.callee], set()
+                while st_:
+                    v_ = st_.pop()
+                    if v_ in seen_:
+                        continue
+                    seen_.add(v_)
+                    d_ = f.defs.get(v_)
+                    if d_ is None:
+                        if isinstance(v_, str) and v_.startswith('@'):
+                            targets.add(v_)
+                    elif d_.op == 'phi':
+                        st_ += [x_ for x_, _ in d_.incoming]
+                    elif d_.op == 'select':
+                        st_ += d_.ops[1:]
+                    elif d_.op == 'bitcast':
+                        st_.append(d_.ops[0])
+                for tg in sorted(targets):
+                    g_ = P.fns.get(tg)
+                    if g_ is None or len(g_.order) != 1:
+                        continue
+                    inner = [i for i in g_.insts() if i.op == 'call' and i.callee in ('@crc32', '@liberasurecode_crc32_alt')]
+                    if len(inner) != 1:
+                        continue
+                    pidx = [g_.param_index(strip_int_casts(g_, strip_ptr_casts(g_, o))) if isinstance(o, str) else None for o in inner[0].ops[:3]]
+                    ln_ = inner[0].ops[2]
+                    if pidx[1] is None or not INT_RE7.match(str(inner[0].ops[0])) or (pidx[2] is None and not INT_RE7.match(str(ln_))):
+                        continue
+                    sites.append(_Site(inner[0].callee, [inner[0].ops[0], ic.ops[pidx[1]], ln_ if pidx[2] is None else ic.ops[pidx[2]]], ic))
         # the payload CRC lives in set_checksum, so every CRC call in these two functions is a metadata CRC
         if len(sites) < 2:
             r.undecided(f'{fname}: metadata CRC calls', msg=f'expected both crc32 and crc32_alt, found {len(sites)}')
